@@ -237,6 +237,13 @@ def run_sess(shard, tier, acc):
                              % (' '.join(flags), j, ' '.join(other), len(Bo.stdout), Bo.stdout[:3], len(Bf.stdout), Bf.stdout[:3]), 'load-flags-not-from-save')
             acc.nontrivial += 1
             case = {'kind': 'sess', 'spec_index': i, 'spec': spec, 'flags': flags, 'j': j}
+            # the resumed stream continues the FLAGGED stream: only its lines, and together with run A all of them
+            if not Bf.exc:
+                alien = [l for l in Bf.stdout if l not in set(full.stdout)]
+                lost = [l for l in full.stdout if l not in set(A.stdout) and l not in set(Bf.stdout)]
+                if alien or lost:
+                    acc.fail(case, 'run A used [%s] and was quit at guess %d; the resumed run is not a continuation of that stream: lines outside it %r, lines of it that neither run emitted %r'
+                             % (' '.join(flags), j, alien[:4], lost[:4]), 'resumed-stream-not-the-flagged-one')
             if Bn.exc:
                 acc.fail(case, '--load without flags raised %s' % Bn.exc.strip().splitlines()[-1], 'raise')
             elif Bn.stdout != Bf.stdout:
